@@ -644,7 +644,13 @@ class xRFM:
             projection = self._generate_projection_from_M(X.shape[1], Xcov)
         elif self.split_method == 'linear':
             XtX = X.T @ X
-            beta = torch.linalg.solve(XtX + 1e-6 * torch.eye(X.shape[1], device=self.device), X.T @ y)
+            normal_matrix = XtX + 1e-6 * torch.eye(X.shape[1], device=self.device)
+            try:
+                beta = torch.linalg.solve(normal_matrix, X.T @ y)
+            except RuntimeError:
+                # singular normal equations (duplicated, constant or collinear columns; the 1e-6 ridge is
+                # below float32 resolution): fall back to the minimum-norm least-squares solution
+                beta = torch.linalg.lstsq(normal_matrix, X.T @ y).solution
             beta = beta.mean(dim=1)  # probably not the best way to do this
             projection = beta / torch.norm(beta)
         elif 'agop_on_subset' in self.split_method:
